@@ -15,4 +15,30 @@ def Dec.chunkReserve (cfg : DecCfg) (s : DecSt) : Option Nat :=
     else none
   | _, _ => none
 
+variable {α : Type}
+
+/-- `decode_chunk` with its `buf.reserve(len)` made explicit, in the code's order: the flag is
+consumed and judged, the length is read and tested against the limit, THEN `len` bytes are reserved
+and the body is read.  One function computes the transition and the reservation;
+`Dec.decodeChunk` and `Dec.chunkReserve` are its two projections (`decodeChunkT_fst`, `decodeChunkT_snd`). -/
+def Dec.decodeChunkT (cd : Codec α) (cfg : DecCfg) (s : DecSt) : (DecSt × DC α) × Option Nat :=
+  match s.ph with
+  | .failed _ => ((s, .more), none)
+  | .body len comp => (Dec.readBody cd s len comp, none)
+  | .hdr =>
+    match s.buf with
+    | f :: a :: b :: c :: d :: rest =>
+      let afterFlag : DecSt := { s with buf := a :: b :: c :: d :: rest }
+      let proceed (comp : Option Enc) : (DecSt × DC α) × Option Nat :=
+        let len := readU32 a b c d
+        if len > cfg.limit then (({ s with buf := rest }, .fail ⟨11, .tooLargeDec⟩), none)
+        else (Dec.readBody cd { s with buf := rest } len comp, some len)   -- `self.buf.reserve(len)`
+      if f = 0 then proceed none
+      else if f = 1 then
+        match cfg.enc with
+        | some e => proceed (some e)
+        | none => ((afterFlag, .fail ⟨13, .noEncoding⟩), none)
+      else ((afterFlag, .fail ⟨13, .badFlag⟩), none)
+    | _ => ((s, .more), none)
+
 end Framing
